@@ -7,8 +7,9 @@ from lib import absint as A
 from lib import fxn as X
 from lib.kernel import Kernel, Unrecognised, show, roots_in, root_of
 
-TECHNIQUE = ("effect classification of every solve body through the kernel normal form (accumulating / appending updates of the output cell), structural "
-             "shape of Interpreter::step (counted forward passes over the whole plan), who-may-mutate the plan (append only), field-type rule for the "
+TECHNIQUE = ("effect classification of every solve body through the kernel normal form (accumulating / appending updates of the output cell), loop nest of every solve() in "
+             "Interpreter::step by symbolic evaluation through helpers, iterator adaptors and counted while loops (counted forward passes over the whole plan), who-may-mutate the plan "
+             "(append only; the plan is a role: field, accessor, typed parameter or a local initialised from one), field-type rule for the "
              "language's value containers and call-graph purity (clock, RNG, hash-ordered iteration) from the evaluators and kernels")
 EXPLANATION = (
     "Decides structural clauses of C19: (R1) step(0,n) is n forward passes over the whole plan and step(i,n) solves only step i, n times; (R2) every function "
